@@ -255,9 +255,12 @@ def main(modname, argv):
     unreproduced = []
     sigs = sorted(total['violations'].items(), key=lambda kv: (kv[1][0]['cost'], kv[0]))
     MAX_CONFIRM = 25
+    known_entries = set()
     for k, lst in sigs:
         v = lst[0]
         e = match_finding(findings, mod.ID, v['sig'])
+        if e is not None and id(e) in known_entries:
+            continue        # this listed finding was already reproduced once in this run
         if len(reported) + len(known) >= MAX_CONFIRM:
             # enough witnesses; remaining signatures are listed unconfirmed in evidence
             continue
@@ -265,6 +268,8 @@ def main(modname, argv):
         st = confirm(mod.ID, path)
         if st == 'violation':
             (known if e else reported).append((v['sig'], path, v['msg'], e))
+            if e is not None:
+                known_entries.add(id(e))
         else:
             unreproduced.append({'sig': v['sig'], 'replay': path, 'status': st, 'msg': v['msg']})
             if e is None:
